@@ -353,6 +353,26 @@ class Dmn(Family):
             steps.append(st("queue_state", [qq]))
         return [VL(cfg), VL(steps)]
 
+    # ---- the backend-request channel inherits the negotiated settings (C14) ----
+    def beq_history(self, rng):
+        nq, cfg, feat, masks = self.cfg(rng)
+        pf = (1 << 3) | (1 << 5)            # REPLY_ACK (so that results are acknowledged) + BACKEND_REQ
+        if rng.chance(1, 2):
+            pf |= 1 << 18                          # SHARED_OBJECT
+        if rng.chance(1, 2):
+            pf |= 1 << 21                          # SHMEM
+        if rng.chance(1, 6):
+            pf &= ~(1 << 5)                        # channel not negotiated: the message is refused
+        steps = [st("set_protocol_features", [pf])]
+        order = [st("set_backend_req"), st("proxy_probe", [0]), st("proxy_probe", [1])]
+        if rng.chance(1, 3):
+            # the settings are those at the time the channel is attached: a later re-negotiation does not change it
+            order.insert(1, st("set_protocol_features", [pf ^ (1 << 18) ^ (1 << 21)]))
+        if rng.chance(1, 4):
+            order = [st("proxy_probe", [0])] + order
+        steps += order + [st("proxy_probe", [rng.below(2)]), st("panics")]
+        return [VL(cfg), VL(steps)]
+
     def routing_case(self, rng, nq, masks, kind):
         feat = PFB
         cfg = [VN(nq), VN(256), VN(feat), VN(W.PF_ALL), VL([VN(m) for m in masks]), VN(kind)]
@@ -379,6 +399,7 @@ class Dmn(Family):
         out = [(self.ring_history(rng, 4 + rng.below(14)), "ring-history") for _ in range(n)]
         out += [(self.mem_history(rng, 4 + rng.below(16)), "mem-history") for _ in range(n)]
         out += [(self.adv_history(rng), "adversarial") for _ in range(n)]
+        out += [(self.beq_history(rng), "backend-req-channel") for _ in range(n // 8)]
         # routing: every mask set of the table x both vring kinds (complete), plus random mask sets
         for nq, sets in MASKSETS.items():
             for masks in sets:
